@@ -85,6 +85,9 @@ type Script struct {
 	// server that lets somebody else reuse the memory of a reply still being written shows up in the output.
 	PauseWriteAt   int
 	PauseWriteKeep int
+	// EmptyReads: between every two scripted chunks one Read returns (0, nil) - "nothing happened", which
+	// io.Reader permits (a zero-length write into a net.Pipe arrives like that). It is not the end of the stream.
+	EmptyReads bool
 	// CloseFails makes the first Close report an error after releasing the connection, as tls.Conn.Close does
 	// when the close_notify alert cannot be sent to a peer that is already gone.
 	CloseFails bool
@@ -98,25 +101,26 @@ type Conn struct {
 	mu   sync.Mutex
 	cond *sync.Cond
 
-	chunks             [][]byte
-	cur                []byte // rest of the current chunk
-	end                Ending
-	ended              bool // End() called in Hold mode: behave as endAs afterwards
-	endAs              Ending
-	failAt             int
-	failKeep           int
-	stallAt            int
-	stallKeep          int
-	pauseAt, pauseKeep int
-	paused, resumed    bool
-	closeFails         bool
-	eofWithData        bool
-	idleAt             int
-	idled              bool
-	rdl                time.Time // read deadline armed by the server (zero = none)
-	rdlArmed           int
-	wdl                time.Time // write deadline armed by the server (zero = none)
-	wdlArmed           int       // number of non-zero write deadlines set
+	chunks               [][]byte
+	cur                  []byte // rest of the current chunk
+	end                  Ending
+	ended                bool // End() called in Hold mode: behave as endAs afterwards
+	endAs                Ending
+	failAt               int
+	failKeep             int
+	stallAt              int
+	stallKeep            int
+	pauseAt, pauseKeep   int
+	paused, resumed      bool
+	closeFails           bool
+	eofWithData          bool
+	emptyReads, emptyDue bool
+	idleAt               int
+	idled                bool
+	rdl                  time.Time // read deadline armed by the server (zero = none)
+	rdlArmed             int
+	wdl                  time.Time // write deadline armed by the server (zero = none)
+	wdlArmed             int       // number of non-zero write deadlines set
 
 	delivered      int
 	out            []byte
@@ -136,7 +140,7 @@ type Conn struct {
 }
 
 func New(s Script) *Conn {
-	c := &Conn{end: s.End, failAt: s.FailWriteAt, failKeep: s.FailWriteKeep, stallAt: s.StallWriteAt, stallKeep: s.StallWriteKeep, idleAt: s.IdleAt, closeFails: s.CloseFails, pauseAt: s.PauseWriteAt, pauseKeep: s.PauseWriteKeep, eofWithData: s.EOFWithData && s.End == EOF, readHash: 1469598103934665603}
+	c := &Conn{end: s.End, failAt: s.FailWriteAt, failKeep: s.FailWriteKeep, stallAt: s.StallWriteAt, stallKeep: s.StallWriteKeep, idleAt: s.IdleAt, closeFails: s.CloseFails, emptyReads: s.EmptyReads, pauseAt: s.PauseWriteAt, pauseKeep: s.PauseWriteKeep, eofWithData: s.EOFWithData && s.End == EOF, readHash: 1469598103934665603}
 	for _, ch := range s.Chunks {
 		if len(ch) > 0 {
 			c.chunks = append(c.chunks, ch)
@@ -182,6 +186,14 @@ func (c *Conn) Read(p []byte) (int, error) {
 			}
 		}
 		if len(c.chunks) > 0 {
+			if c.emptyReads && !c.emptyDue && c.delivered > 0 {
+				// the empty read between two chunks
+				c.emptyDue = true
+				c.nReads++
+				c.readHash = (c.readHash ^ 0xE0) * 1099511628211
+				return 0, nil
+			}
+			c.emptyDue = false
 			c.cur = c.chunks[0]
 			c.chunks = c.chunks[1:]
 			c.waiting = false
